@@ -170,18 +170,29 @@ def cut_loop(I, s, st, lab, spec, cond, pre_body, post_body, at_head, auto_inv, 
     invs = list(spec.get("invariant", []))
     tags = tuple(spec.get("tags", ()))
     entry_snapshot = st.copy()
+    used_ghosts = ctx.contract.__dict__.setdefault("_ghost_names", None)
+    if used_ghosts is None:
+        import re
+        txt = repr(ctx.contract.loops) + repr(ctx.contract.ensures) + repr(ctx.contract.options)
+        used_ghosts = ctx.contract.__dict__["_ghost_names"] = set(re.findall(r"entry_L[0-9_]+_[A-Za-z_][A-Za-z_0-9]*", txt))
     for n, v in entry_snapshot.locals.items():
-        if not n.startswith("$") and not n.startswith("entry_"):
-            st.locals["entry_%s_%s" % (lab.replace(".", "_"), n)] = v.val if isinstance(v, MaybeUnbound) else v
+        gname = "entry_%s_%s" % (lab.replace(".", "_"), n)
+        if gname in used_ghosts:
+            st.locals[gname] = v.val if isinstance(v, MaybeUnbound) else v
     # ---- initiation
     if at_head:
         at_head(st)
     if auto_inv:
         ctx.oblige("inv_init", auto_inv(st), st, s, lab + ".range", tags)
+    seq = st.copy()     # invariants are asserted in order; each may use the ones before it (all are proved, so this is sound)
+    for ia, text in enumerate(spec.get("init_asserts", ())):
+        _oblige_conjuncts(I, "init_assert", text, seq, s, "%s.a%d" % (lab, ia), tags)
     for i, inv in enumerate(invs):
         iid, text = inv if isinstance(inv, tuple) else ("inv%d" % i, inv)
-        g = eval_clause(I, text, st, +1, extra={"$entry": None})
-        ctx.oblige("inv_init", g, st, s, "%s.%s" % (lab, iid), tags, note=text)
+        _oblige_conjuncts(I, "inv_init", text, seq, s, "%s.%s" % (lab, iid), tags)
+    for oid, rec in seq.heap.items():
+        if oid not in st.heap:
+            st.heap[oid] = rec
     # ---- havoc
     names, subs, attrs, calls = assigned_in(s.body)
     names |= set(extra_havoc)
@@ -238,6 +249,7 @@ def cut_loop(I, s, st, lab, spec, cond, pre_body, post_body, at_head, auto_inv, 
                 raise ToolLimit("call with assigns clause inside a contract-cut loop (%s)" % fname)
     if at_head:
         at_head(hv)
+    gc_pc(I, hv)
     # ghost: values at loop entry, readable in invariants as at_loop_entry names  ($entry_<name>)
     # ---- assume invariants
     if auto_inv:
@@ -303,10 +315,12 @@ def cut_loop(I, s, st, lab, spec, cond, pre_body, post_body, at_head, auto_inv, 
                 at_head(e)
             if auto_inv:
                 ctx.oblige("inv_pres", auto_inv(e), e, s, lab + ".range", tags)
+            seq_e = e.copy()
+            for ia, text in enumerate(spec.get("pres_asserts", ())):
+                _oblige_conjuncts(I, "pres_assert", text, seq_e, s, "%s.a%d" % (lab, ia), tags)
             for i, inv in enumerate(invs):
                 iid, text = inv if isinstance(inv, tuple) else ("inv%d" % i, inv)
-                g = eval_clause(I, text, e, +1)
-                ctx.oblige("inv_pres", g, e, s, "%s.%s" % (lab, iid), tags, note=text)
+                _oblige_conjuncts(I, "inv_pres", text, seq_e, s, "%s.%s" % (lab, iid), tags)
             if var_before is not None:
                 if vtext is not None:
                     var_after = _eval_term(I, vtext, e)
@@ -318,6 +332,95 @@ def cut_loop(I, s, st, lab, spec, cond, pre_body, post_body, at_head, auto_inv, 
             else:
                 ctx.oblige("variant_missing", False, e, s, lab, ("C16",), note="no variant given: termination not shown")
     return outs
+
+
+def _syms(t, out, seen):
+    stack = [t]
+    while stack:
+        x = stack.pop()
+        i = x.get_id()
+        if i in seen:
+            continue
+        seen.add(i)
+        if z3.is_quantifier(x):
+            stack.append(x.body())
+        elif z3.is_app(x):
+            if x.num_args() == 0:
+                if x.decl().kind() == z3.Z3_OP_UNINTERPRETED:
+                    out.add(x.decl().name())
+            else:
+                stack.extend(x.children())
+
+
+def _val_syms(v, out, seen):
+    if isinstance(v, z3.ExprRef):
+        _syms(v, out, seen)
+    elif isinstance(v, MaybeUnbound):
+        _val_syms(v.cond, out, seen)
+        _val_syms(v.val, out, seen)
+    elif isinstance(v, TupleV):
+        for x in v.items:
+            _val_syms(x, out, seen)
+
+
+def gc_pc(I, st):
+    """Drop path-condition facts about dead symbols (symbols no live value refers to: old versions of havocked locals and arrays).
+    Dead symbols are existentially quantified, so dropping every fact that mentions one is a sound weakening."""
+    live, seen = set(), set()
+    states = [st] + ([st.old] if st.old is not None else []) + ([I.ctx.entry] if I.ctx.entry is not None else [])
+    for s_ in states:
+        for v in s_.locals.values():
+            _val_syms(v, live, seen)
+        for rec in s_.heap.values():
+            if isinstance(rec, ArrRec):
+                _val_syms(rec.term, live, seen)
+                _val_syms(rec.length, live, seen)
+            elif isinstance(rec, ObjRec):
+                for v in rec.fields.values():
+                    _val_syms(v, live, seen)
+            elif isinstance(rec, TableRec):
+                for (row, sl, v) in rec.writes:
+                    _val_syms(row, live, seen)
+                    _val_syms(v, live, seen)
+    keep = []
+    cache = {}
+    dropped = 0
+    for f in st.pc:
+        if not isinstance(f, z3.ExprRef):
+            keep.append(f)
+            continue
+        k = f.get_id()
+        if k not in cache:
+            out = set()
+            _syms(f, out, set())
+            cache[k] = out
+        syms = cache[k]
+        dead = [n for n in syms if n not in live and "!" in n and not n.startswith("sk_")]
+        if dead:
+            dropped += 1
+            continue
+        keep.append(f)
+    st.pc = keep
+    I.ctx.__dict__["gc_dropped"] = I.ctx.__dict__.get("gc_dropped", 0) + dropped
+
+
+def _split_and(text):
+    node = ast.parse(text.strip(), mode="eval").body
+    if isinstance(node, ast.BoolOp) and isinstance(node.op, ast.And):
+        return [ast.unparse(v) for v in node.values]
+    return [text]
+
+
+def _oblige_conjuncts(I, kind, text, seq, node, detail, tags):
+    """Assert the clause conjunct by conjunct on `seq`; each proved conjunct becomes a hypothesis for the following ones."""
+    from .spec import eval_clause
+    parts = _split_and(text)
+    for k, part in enumerate(parts):
+        g = eval_clause(I, part, seq, +1)
+        I.ctx.oblige(kind, g, seq, node, detail if len(parts) == 1 else "%s.%d" % (detail, k), tags, note=part)
+        h = eval_clause(I, part, seq, -1)
+        if h is not True:
+            seq.pc.append(z(h))
 
 
 def _strip_ghosts(st):
